@@ -16,7 +16,8 @@ KINDS = ["pose", "vertex", "odo", "lm", "custom", "graph"]
 RULE = ("cases from rng(seed, 17, 0, i): object category = i mod 6 of pose / vertex / odometry edge / landmark edge / custom edge / graph; y derived from x by (a) copy, (b) a single-"
         "component perturbation of magnitude 10^U(-12,3) x tol x max(||array||, tol) in one compared array, (c) a structural difference (other pose class of equal or different "
         "size, other id, other edge class, other estimate kind/size, other information shape, shapes that differ but broadcast to an all-zero difference, instance of a subclass, one vertex's pose swapped after construction for its equal-size sibling class (also in graphs of 64-130 vertices), extra element, swapped order; graphs whose vertices span scales 1e-3..1e4); tol in 10^U(-12,-2); both directions evaluated. "
-        "distinct = fingerprint(x, mutation); non-trivial = mutation other than copy with a decided expectation.")
+        "distinct = fingerprint(x, mutation); non-trivial = mutation other than copy with a decided expectation."
+        " later additions: ids >= 2^63 next to small ones, compare - rescale in place - compare histories, comparisons with numpy divide/invalid errors raised, copies made by the copy module.")
 REQ = ["eval:equals-never-raises", "eval:equals-expected-true", "eval:equals-expected-false", "cat:pose", "cat:vertex", "cat:odo", "cat:lm", "cat:custom", "cat:graph", "mut:copy",
        "mut:perturb_below", "mut:perturb_above", "mut:class_same_size", "mut:class_other_size", "mut:id", "mut:edge_class", "mut:estimate_size", "mut:broadcastable_shape", "mut:vertex_class_swapped", "mut:views_into_one_table", "class:compared_with_debug_logging_enabled", "mut:loaded_vs_built_from_its_lists", "class:copy_made_with_the_copy_module", "class:compared_then_rescaled_in_place_then_compared", "class:compared_with_fp_errors_raised", "class:graph_64+_vertices", "mut:information_shape",
        "mut:graph_extra_element", "mut:graph_order", "mut:offset", "mut:offset_id", "mut:edge_subclass", "class:graph_multi_scale", "class:default_tol_argument_omitted", "mut:ids_container", "mut:pose_subclass", "class:graphs_used_and_restored_before_comparison"]
